@@ -1101,3 +1101,47 @@ def rule_Q9(F, R):
         R.ok("Q9", "num_unsynced_operations counts rows: %s" % sq[0][:80], where(b))
     else:
         R.violation("Q9", b["owner_fn"], "count-of-nullable-column:" + arg, "num_unsynced_operations counts `%s`, which is NULL for operations without a task (UndoPoint): the count is smaller than the number of unsynchronised operations and than the in-memory storage's" % arg, where(b))
+
+
+def rule_Q10(F, R):
+    R.begin("Q10", "sibling agreement on what each SQLite StorageTxn method modifies: like its in-memory sibling, a task method changes only the tasks table, an operation method only the operations table, a working-set method only the working_set table, set_base_version only sync_meta. A task method that also deletes from `operations` removes changes that were committed but not yet sent (they never reach the server) or breaks undo")
+    import roles
+    im = sqlite_txn_impl(F)
+    if im is None:
+        R.missing("Q10", "the SQLite transaction impl")
+        return
+    table = {
+        "create_task": {"tasks"}, "set_task": {"tasks"}, "delete_task": {"tasks"},
+        "set_base_version": {"sync_meta"},
+        "add_operation": {"operations"}, "remove_operation": {"operations"}, "sync_complete": {"operations"},
+        "add_to_working_set": {"working_set"}, "set_working_set_item": {"working_set"}, "clear_working_set": {"working_set"},
+        "get_task": set(), "get_pending_tasks": set(), "all_tasks": set(), "all_task_uuids": set(), "base_version": set(),
+        "get_task_operations": set(), "unsynced_operations": set(), "num_unsynced_operations": set(), "get_working_set": set(),
+    }
+    n = 0
+    for it in im["items"]:
+        want = table.get(it["name"])
+        if want is None:
+            continue
+        b = F.real_body(it["path"])
+        if b is None:
+            continue
+        bodies = [b]
+        # private helpers of the sqlite module called from the method
+        for (_i, t) in cfg_of(b).calls():
+            hb = roles.callee_body(F, t)
+            if hb is not None and "storage::sqlite" in hb["path"] and hb["path"] != b["path"] and not any(hb["path"].endswith("::" + k) for k in table):
+                bodies.append(F.real_body(F.owner(hb["path"])) or hb)
+        for bb_ in bodies:
+            for (i, sv) in roles.sql_in_body(F, bb_):
+                q = " ".join(sv.replace("\\n", " ").split())
+                m = re.match(r"^(?:INSERT\s+(?:OR\s+\w+\s+)?INTO|REPLACE\s+INTO|DELETE\s+FROM)\s+(\w+)|^UPDATE\s+(\w+)\s+SET\b", q, re.I)
+                if not m:
+                    continue
+                n += 1
+                tbl = (m.group(1) or m.group(2)).lower()
+                if tbl in want:
+                    R.ok("Q10", "%s modifies %s" % (it["name"], tbl), where(bb_, i))
+                else:
+                    R.violation("Q10", b["owner_fn"], "modifies-other-table:%s" % tbl, "the SQLite %s also modifies table `%s` (%s): the in-memory %s touches only %s" % (it["name"], tbl, q[:80], it["name"], sorted(want) or "nothing"), where(bb_, i))
+    R.floor("Q10", "modifying statements in the SQLite StorageTxn methods", n, 8)
